@@ -38,6 +38,18 @@ C01_TARGETS = ['kernel.thm.Thm.' + r for r in THM_RULES] + [
     'kernel.term.Term.occurs_var',
 ]
 
+C05_TARGETS = [
+    'kernel.term.Term.is_binary', 'kernel.term.Term.dest_binary', 'kernel.term.Term.is_nat_number',
+    'kernel.term.Term.is_frac_number', 'kernel.term.Term.is_number', 'kernel.term.Term.dest_number',
+    'kernel.term.Term.is_constant', 'kernel.term.Term.is_comb',
+    'data.nat.nat_eval', 'data.nat.nat_eval_macro.eval',
+    'data.integer.int_eval', 'data.integer.int_eval_macro.eval', 'data.integer.int_const_ineq_macro.eval',
+    'data.real.real_eval.rec', 'data.real.real_eval', 'data.real.real_eval_macro.eval',
+    'data.real.RealEqMacro.eval', 'data.real.RealCompareMacro.eval', 'data.real.real_const_ineq_macro.eval',
+    'lemma:den_bin', 'lemma:num_den_nat', 'lemma:num_den_frac', 'lemma:num_den', 'lemma:arith_ok_type',
+    'lemma:arith_ok_shape', 'lemma:app_shapes', 'lemma:nargs_nonneg',
+]
+
 PLANS = {
     'C01': dict(
         specs=KERNEL_SPECS, contracts=KERNEL_CONTRACTS, targets=C01_TARGETS, level='proof',
@@ -49,6 +61,23 @@ PLANS = {
             "constructors at their declared arity (the checker does not call check_term/check_type)",
             "contracts of kernel.term helpers (get_type, subst_bound, abstract_over, args, ...) are assumed "
             "here and discharged under C03",
+        ],
+        trusted_base=['pyvc (this repository)', 'z3 5.1'],
+    ),
+    'C05': dict(
+        specs=KERNEL_SPECS + ['spec.arith'], contracts=KERNEL_CONTRACTS + ['contracts.arith'],
+        targets=C05_TARGETS, level='proof', uf_mul=True,
+        assumptions=COMMON_ASSUMPTIONS + [
+            "standard meaning of ground arithmetic terms = spec/arith.py `den` (truncated minus at nat, x/0 = 0, "
+            "exact rationals), types read from the constants' own annotations",
+            "A1b: arithmetic constants occur at declared instances (arith_ok); the post-conditions are stated "
+            "for goals that are well-formed ground arithmetic terms at their own type",
+            "products / quotients of two symbolic numbers are uninterpreted functions in the VCs (sound "
+            "over-approximation, only congruence is needed)",
+            "Python int/Fraction tower modelled as rationals; terms containing `power` are outside arith_ok "
+            "(pow_spec uninterpreted); math.gcd uninterpreted",
+            "NOT covered here: real_norm_macro (util/poly.py normaliser) and integral.inequality."
+            "ConstInequalityMacro (Python floats: outside the model)",
         ],
         trusted_base=['pyvc (this repository)', 'z3 5.1'],
     ),
